@@ -315,8 +315,36 @@ func ccrName(d *DiamOp) string {
 var c08Costs = []string{"1", "2", "3", "7", "10", "100", "999", "1000", "65536", "4294967295", "0", "0", "00", "1.5", "0.5", "2.50", "10.0", ".5", "5.",
 	"", "abc", "1e3", "-1", " 2", "4294967296", "99999999999999999999", "1,5", "0x10"}
 
+// genC08Whole: the CHF in front of the rating server; the operator changes the stored
+// tariff between usage reports. After every update the unit cost the CHF holds must be the
+// one the rating server applied (decoded from the answer on the wire).
+func genC08Whole(g *gen) *Scenario {
+	g.sc.Cfg.WholeSystem = true
+	supi := supiN(1)
+	nrg := 1 + g.r.Intn(2)
+	for rg := 1; rg <= nrg; rg++ {
+		g.sc.Accounts = append(g.sc.Accounts, Account{Supi: supi, RG: int32(rg), Quota: 2_000_000_000, UnitCost: c08Costs[g.r.Intn(8)]})
+	}
+	ops := []Op{{ID: g.id(), Kind: "create", Supi: supi, Sess: "s", Consumer: "smf", ChargingID: 3}}
+	n := 2 + g.r.Intn(10)
+	for i := 0; i < n; i++ {
+		rg := int32(1 + g.r.Intn(nrg))
+		if g.r.Chance(350) {
+			ops = append(ops, Op{ID: g.id(), Kind: "dbcost", Supi: supi, RG: rg, Consumer: c08Costs[g.r.Intn(8)]})
+		}
+		ops = append(ops, Op{ID: g.id(), Kind: "update", Supi: supi, Sess: "s",
+			Units: []Unit{{RG: rg, Req: int32(g.r.Range(1, 1000)), Containers: []Container{g.online([]int{0, 500, 1000}[g.r.Intn(3)])}}}})
+	}
+	g.sc.Shape = fmt.Sprintf("whole-system rgs=%d ops=%d", nrg, n)
+	g.sc.Tasks = []Task{{ID: 0, Ops: ops}}
+	return g.sc
+}
+
 func GenC08(seed uint64) *Scenario {
 	g := newGen("C08", seed)
+	if g.r.Chance(200) {
+		return genC08Whole(g)
+	}
 	g.sc.Cfg.MaxLatNs = []int64{300_000, 5_000_000}[g.r.Intn(2)]
 	nAcc := 1 + g.r.Intn(3)
 	sane := g.r.Chance(500) // half of the runs only use plain positive integer tariffs
@@ -396,6 +424,42 @@ func GenC08(seed uint64) *Scenario {
 // that the CHF-side formula decodes from the tariff in the answer.
 func CheckC08(h *History) []Violation {
 	var v vio
+	if h.Scenario.Cfg.WholeSystem {
+		cur := map[string]string{}
+		for _, a := range h.Scenario.Accounts {
+			cur[acctKey(a.Supi, a.RG)] = a.UnitCost
+		}
+		for _, o := range h.Ops {
+			if o.Op.Kind == "dbcost" {
+				cur[acctKey(o.Op.Supi, o.Op.RG)] = o.Op.Consumer
+			}
+			if o.Op.Kind != "update" || !o.Done || o.Status != 200 {
+				continue
+			}
+			for _, u := range o.Op.Units {
+				// the tariff in the last rating answer of this op for this group, as the wire shows it
+				var digits, exp int64
+				have := false
+				for _, m := range h.Msgs {
+					if m.Op == o.Op.ID && m.Cmd == 111 && !m.Request && m.ToClient && m.Delivered && m.F.HasTariff {
+						digits, exp, have = m.F.TariffDigits, m.F.TariffExp, true
+					}
+				}
+				st, ok := stateOf(o.Post, o.Op.Supi, u.RG)
+				if !have || !ok {
+					continue
+				}
+				k := uint64(uint32(digits)) * uint64(uint32(math.Pow10(int(exp))))
+				if uint64(st.UnitCost) != k&math.MaxUint32 {
+					v.add("C08", "chf-unit-cost-disagrees", "", o.Op.ID,
+						"after update op %d the CHF rates %s rg %d with unit cost %d, but the rating server's answer to this very request carries the tariff %d x 10^%d = %d (stored unit cost %q)",
+						o.Op.ID, o.Op.Supi, u.RG, st.UnitCost, digits, exp, k, cur[acctKey(o.Op.Supi, u.RG)])
+					return v.list
+				}
+			}
+		}
+		return v.list
+	}
 	for _, o := range h.Ops {
 		if o.Op.Kind != "sur" || o.Diam == nil {
 			continue
